@@ -173,7 +173,11 @@ class C16(Prop):
                 if m == "gats":
                     gets_steps.append((len(steps), key))
             elif m in ("get_many", "gets_many"):
-                a = [E(rng.sample(keys, rng.randint(0, len(keys))))]
+                ks = rng.sample(keys, rng.randint(0, len(keys)))
+                if ks and rng.random() < 0.3:
+                    ks = ks + [rng.choice(ks)]       # a repeated key
+                    rng.shuffle(ks)
+                a = [E(ks)]
             elif m == "set_many":
                 a = [E({kk: value() for kk in rng.sample(keys, rng.randint(1, 3))})]
                 store_args(a, k)
